@@ -299,6 +299,23 @@ class Check:
         try:
             out = fn()
         except Exception as ex:
+            tb = traceback.extract_tb(ex.__traceback__)
+            inner = tb[-1] if tb else None
+            in_repo = inner is not None and os.path.realpath(inner.filename).startswith(os.path.realpath(SRC) + os.sep)
+            harness_limit = isinstance(ex, (AttributeError, ImportError, NotImplementedError)) or (isinstance(ex, TypeError) and "argument" in str(ex))
+            if in_repo and not harness_limit:
+                # the real code raised on an input of the stated design: a failure of the design's clause, reported with the call chain
+                last_verif = [f for f in tb if os.path.realpath(f.filename).startswith(os.path.realpath(VERIF) + os.sep)][-1:]
+                o = Ob("%s/bounded.raises[%s]" % (self.prop, name[:40]), "bounded")
+                o.backend = "native-runtime-contract"
+                o.clause = "the real code completes on every input of the design (%s)" % name
+                o.witness = {"design": design[:200], "raised": "%s: %s" % (type(ex).__name__, str(ex)[:200]), "at": "%s:%d" % (os.path.relpath(inner.filename, SRC), inner.lineno),
+                             "called from": "%s:%d" % (os.path.basename(last_verif[0].filename), last_verif[0].lineno) if last_verif else None}
+                self.obs_bounded = getattr(self, "obs_bounded", [])
+                self.obs_bounded.append(o)
+                self.bounded.append({"name": name, "design": design, "evaluations": 0, "failures": 1, "label": "bounded (not proof)", "raised": o.witness})
+                self._violation(o, {"violated": True, "input": o.witness, "observed": o.witness["raised"]})
+                return None
             self.bounded.append({"name": name, "design": design, "error": "%s: %s" % (type(ex).__name__, ex), "trace": traceback.format_exc()[-600:]})
             self.notes.append("bounded stand-in %s crashed: %s" % (name, ex))
             o = Ob("%s/bounded[%s]" % (self.prop, name[:40]), "bounded")
